@@ -272,12 +272,25 @@ def check(pid, tier):
             crashes.append(r["crash"] + " @ " + r["payload"] + "\n" + r["trace"][-500:])
         else:
             obs.extend(r["obligations"])
+    # L-src contracts of the resolution functions themselves (for every registry content)
+    try:
+        from . import s3resolve
+
+        obs += s3resolve.all_obligations(pid)
+    except Exception as e:  # noqa
+        import traceback
+
+        crashes.append(f"s3resolve: {type(e).__name__}: {e}\n" + traceback.format_exc()[-500:])
     return runner.finish(
         pid, tier, obs, t0,
         technique="RESOLVE (lexicographic minimum over field option, key specificity, level) computed from the schema by an independent resolver; the generated from_dict/to_dict unit (default and call-dialect, mixin and codec holder) is proved by symbolic execution (pysym, z3) to apply exactly the winning registration for all inputs",
         units=len(pts),
         extra_cov={"points": len(pts), "explanation": "every single registration slot x kind, every pair of slots, sampled larger subsets (fixed sample) and the full sets; one obligation per compiled unit and direction"},
-        trusted={"marker functions are uninterpreted; the callee's identity is what is proved"},
-        functions=["pack.get_overridden_serialization_method / unpack.get_overridden_deserialization_method / CodeBuilder.iter_serialization_strategies (through the code they make the generator emit)"],
+        trusted={"marker functions are uninterpreted; the callee's identity is what is proved",
+                 "S5 first-match rule (DESIGN 2.5): a loop nest whose body returns f(element) or preserves the invariant returns f(first contributing element)",
+                 "S3/S4: getattr(ns, option, MISSING) and dict.get are total functions; get_config / is_hashable / is_dialect_subclass are pure and do not raise"},
+        functions=["pack.get_overridden_serialization_method / unpack.get_overridden_deserialization_method / CodeBuilder.iter_serialization_strategies (through the code they make the generator emit)",
+                   "builder.py:CodeBuilder.get_dialect_or_config_option (S3, real AST)", "builder.py:CodeBuilder.iter_serialization_strategies + private generator (S4, real AST, ghost yield list)",
+                   "pack.py:get_overridden_serialization_method, unpack.py:get_overridden_deserialization_method (S5: prologue + loop-body Hoare triple, real AST)"],
         crashes=crashes,
     )
